@@ -1,0 +1,73 @@
+//go:build verif
+
+package dhcpv6
+
+import (
+	"net"
+	"sync"
+	"time"
+)
+
+var (
+	verifMu      sync.Mutex
+	verifCapture = map[*Server]*[]*Message{}
+)
+
+// verifIntercept diverts responses of servers driven through VerifHandleMessage into memory.
+func verifIntercept(s *Server, msg *Message, addr *net.UDPAddr) bool {
+	verifMu.Lock()
+	defer verifMu.Unlock()
+	if out, ok := verifCapture[s]; ok {
+		*out = append(*out, msg)
+		return true
+	}
+	return false
+}
+
+// VerifHandleMessage feeds one parsed DHCPv6 message to the message handler exactly as the
+// receive loop would and returns the responses the server produced for it.
+func (s *Server) VerifHandleMessage(msg *Message, addr *net.UDPAddr) []*Message {
+	var out []*Message
+	verifMu.Lock()
+	verifCapture[s] = &out
+	verifMu.Unlock()
+	s.handleMessage(msg, addr)
+	verifMu.Lock()
+	delete(verifCapture, s)
+	verifMu.Unlock()
+	return out
+}
+
+// VerifCleanupExpired runs one iteration of the lease cleanup ticker.
+func (s *Server) VerifCleanupExpired() {
+	s.cleanupExpiredLeases()
+}
+
+// VerifLease6 is a read-only copy of one lease-table entry.
+type VerifLease6 struct {
+	DUID     string
+	Address  net.IP
+	Prefix   *net.IPNet
+	ValidEnd time.Time
+}
+
+// VerifLeases returns a snapshot of the lease table.
+func (s *Server) VerifLeases() []VerifLease6 {
+	s.leasesMu.RLock()
+	defer s.leasesMu.RUnlock()
+	var out []VerifLease6
+	for duid, l := range s.leases {
+		v := VerifLease6{DUID: duid, ValidEnd: l.ValidEnd}
+		if l.Address != nil {
+			v.Address = append(net.IP{}, l.Address...)
+		}
+		if l.Prefix != nil {
+			v.Prefix = &net.IPNet{IP: append(net.IP{}, l.Prefix.IP...), Mask: append(net.IPMask{}, l.Prefix.Mask...)}
+		}
+		out = append(out, v)
+	}
+	return out
+}
+
+// VerifServerDUID returns the serialized server identifier.
+func (s *Server) VerifServerDUID() []byte { return s.serverDUID.Serialize() }
